@@ -1,2 +1,118 @@
+"""C18: Version.__init__ on the real VERSION_RE - discharges the constructor contract the other C18 tasks use
+(contracts/version.py::version_ctor): a valid string gives a non-empty tuple of naturals and an `extra` that is absent or starts
+with a non-digit; anything else raises ValueError.  Shape-bounded: 1..4 numeric components (the split loop is uniform)."""
+import z3
+
+from hv.vc.world import World
+from hv.vc.values import SObj, PyExc, OutOfSubset
+from hv.vc.shapes import Shape, Lit, Field, Misaligned, SplitAmbiguous
+from hv.lang import automata as A, sre2nfa as S
+from hv.frontend import extract
+from props import jsonread as JR
+
+MOD = 'hszinc.version'
+
+
 def run(T, tier):
-    pass
+    m = extract.module(MOD)
+    pat, fl = m.regex('VERSION_RE')
+    for k in (1, 2, 3, 4):
+        for has_extra in (False, True):
+            w, plug = JR.world()
+            w.under_verification = MOD + '.Version.__init__'
+            case = 'init/components=%d/extra=%d' % (k, has_extra)
+
+            def run1(it, k=k, has_extra=has_extra):
+                parts = [Field('n0', S.body(r'\d+'), 'digits', 'n0')]
+                fields = [parts[0]]
+                for i in range(1, k):
+                    # a later component may be empty ("2..1", "2."): int(p or 0) is then 0
+                    if it.ctx.branch(it.ctx.fresh('component%d_empty' % i, z3.BoolSort())):
+                        parts += [Lit('.')]
+                        fields.append(None)
+                    else:
+                        f = Field('n%d' % i, S.body(r'\d+'), 'digits', 'n%d' % i)
+                        parts += [Lit('.'), f]
+                        fields.append(f)
+                ex = None
+                if has_extra:
+                    ex = Field('extra', S.body(r'[^\d.\n][^\n]*'), 'text', 'extra')
+                    parts.append(ex)
+                s = Shape(parts)
+                cls = w.class_ref(m, 'Version')
+                obj = SObj(cls, {})
+                c, meth = cls.find_method('__init__')
+                it.ctx.witness_fn = lambda model: {'kind': 'version_init', 'components': k, 'extra': has_extra}
+                try:
+                    it.call_closure(w.method_closure(c, meth), [obj, s], {})
+                except (Misaligned, SplitAmbiguous, JR.ConversionFails) as e:
+                    o = it.ctx.oblige('Version.__init__/ensures.groups_fall_on_the_components', z3.BoolVal(False))
+                    o.reason = str(e)[:300]
+                    return
+                nums = obj.fields.get('version_nums')
+                ok = isinstance(nums, tuple) and len(nums) == k
+                it.ctx.oblige('Version.__init__/ensures.one_number_per_component(non-empty_tuple)', z3.BoolVal(bool(ok)))
+                if ok:
+                    good = True
+                    for f, n in zip(fields, nums):
+                        # int(p or 0): the number the digits spell (a natural, A-bi-int), or 0 for an empty component
+                        if f is None:
+                            good = good and isinstance(n, int) and n == 0
+                        else:
+                            good = good and isinstance(n, JR.Conv) and n.what == 'int' and isinstance(n.args[0], Shape) and len(n.args[0].parts) == 1 and n.args[0].parts[0] is f
+                    it.ctx.oblige('Version.__init__/ensures.each_number_is_the_natural_its_digits_spell_or_0_when_empty', z3.BoolVal(bool(good)))
+                xe = obj.fields.get('version_extra')
+                if has_extra:
+                    # which part of the trailing text the (repeated) group 2 captures depends on match priorities the engine does
+                    # not model; what the order needs is only that there IS an extra (group 2 takes part in every match of such a
+                    # string) - decided on the marked match language
+                    marked = S.match_language(pat, fl, marks=(2,))
+                    without = A.erase_marks(_no_mark(marked, '<2'), None)
+                    wit = A.intersect_witness(s.base(), without)
+                    o = it.ctx.oblige('Version.__init__/ensures.extra_is_present_whenever_text_follows_the_numbers', z3.BoolVal(wit is None and xe is not None))
+                    o.reason = '' if wit is None else 'matches %r without group 2' % wit
+                else:
+                    o = it.ctx.oblige('Version.__init__/ensures.no_extra', z3.BoolVal(xe is None))
+                    o.reason = 'extra = %r' % (xe,)
+            T.explore(w, run1, case)
+    # invalid strings: everything VERSION_RE.match rejects raises ValueError (and nothing else)
+    w, plug = JR.world()
+    w.under_verification = MOD + '.Version.__init__'
+    from hv.vc.shapes import _intersect_complement
+    bad = _intersect_complement(A.sigma_star(), S.match_language(pat, fl))
+
+    def run2(it):
+        s = Shape([Field('bad', bad, 'text', 'bad')])
+        cls = w.class_ref(m, 'Version')
+        obj = SObj(cls, {})
+        c, meth = cls.find_method('__init__')
+        it.ctx.witness_fn = lambda model: {'kind': 'version_init', 'invalid': True}
+        it.call_closure(w.method_closure(c, meth), [obj, s], {})
+        it.ctx.oblige('Version.__init__/raises.ValueError_for_every_string_the_pattern_rejects', z3.BoolVal(False), kind='raises')
+
+    def on_raise(it, e):
+        it.ctx.oblige('Version.__init__/raises.only_ValueError(%s)' % e.cls, z3.BoolVal(e.cls == 'ValueError'), kind='raises')
+    T.explore(w, run2, 'init/invalid', allow_raise=on_raise)
+    e, wit = A.is_empty(bad)
+    T.cover('init/cover.rejected_strings_exist', [z3.BoolVal(not e)])
+    # clone constructor
+    w, plug = JR.world()
+
+    def run3(it):
+        cls = w.class_ref(m, 'Version')
+        src = SObj(cls, {'version_nums': (2, 0), 'version_extra': None})
+        obj = SObj(cls, {})
+        c, meth = cls.find_method('__init__')
+        it.call_closure(w.method_closure(c, meth), [obj, src], {})
+        it.ctx.oblige('Version.__init__/ensures.clone_copies_both_fields', z3.BoolVal(obj.fields.get('version_nums') == (2, 0) and obj.fields.get('version_extra') is None))
+    T.explore(w, run3, 'init/clone')
+
+
+def _no_mark(nfa, mark):
+    """the runs of a marked automaton that never take `mark`"""
+    out = A.NFA()
+    out.n, out.start, out.finals = nfa.n, nfa.start, set(nfa.finals)
+    for a, l, b in nfa.trans:
+        if l != mark:
+            out.add(a, l, b)
+    return out
